@@ -266,9 +266,13 @@ theorem enterS_exitS (m : Mgr) (a : Arg) (s : Store) :
 
 /-- What `enter` does, for every manager: it rewrites one store of the world, and the exit applied
 to that store gives back (up to `Eqv`) what was there. -/
+theorem eqv_of_fields {w0 w : World} (h1 : w0.tls = w.tls) (h2 : w0.proc = w.proc) : w0.Eqv w :=
+  ⟨fun t => by rw [h1]; exact Store.Eqv.refl _, by rw [h2]; exact Store.Eqv.refl _⟩
+
 theorem enter_spec {m : Mgr} {a : Arg} {t : Nat} {w w1 : World} {sv : Saved} {st : Storage}
     (h : enter m a t w = .ok (w1, sv, st)) :
-    st = storageOf m a ∧ ∃ s1, w1 = w.put st t s1 ∧ (exitS m.key sv s1).Eqv (w.sel st t) := by
+    st = storageOf m a ∧ ∃ (w0 : World) (s1 : Store), w0.tls = w.tls ∧ w0.proc = w.proc ∧
+      w1 = w0.put st t s1 ∧ (exitS m.key sv s1).Eqv (w0.sel st t) := by
   unfold enter at h
   cases hk : m.kind <;> simp only [hk] at h
   case dynEval =>
@@ -277,13 +281,13 @@ theorem enter_spec {m : Mgr} {a : Arg} {t : Nat} {w w1 : World} {sv : Saved} {st
       · simp only [Except.ok.injEq, Prod.mk.injEq] at h
         obtain ⟨h1, h2, h3⟩ := h
         subst h1 h2 h3
-        refine ⟨by simp [storageOf, hk, *], _, rfl, ?_⟩
+        refine ⟨by simp [storageOf, hk, *], w, _, rfl, rfl, rfl, ?_⟩
         simpa [World.sel] using enterS_exitS m a (w.tls t)
       · cases h
     · simp only [Except.ok.injEq, Prod.mk.injEq] at h
       obtain ⟨h1, h2, h3⟩ := h
       subst h1 h2 h3
-      refine ⟨by simp [storageOf, hk, *], { w.proc with val := upd w.proc.val m.key (some a.a) }, rfl, ?_⟩
+      refine ⟨by simp [storageOf, hk, *], w, { w.proc with val := upd w.proc.val m.key (some a.a) }, rfl, rfl, rfl, ?_⟩
       refine ⟨fun k => ?_, fun _ => rfl, fun _ => rfl, fun _ => rfl, fun _ => rfl, fun _ => rfl⟩
       simp only [exitS, upd, World.sel]
       split
@@ -293,7 +297,7 @@ theorem enter_spec {m : Mgr} {a : Arg} {t : Nat} {w w1 : World} {sv : Saved} {st
     simp only [Except.ok.injEq, Prod.mk.injEq] at h
     obtain ⟨h1, h2, h3⟩ := h
     subst h1 h2 h3
-    exact ⟨by simp [storageOf, hk], _, rfl, enterS_exitS m a _⟩
+    exact ⟨by simp [storageOf, hk], w.patch _, _, rfl, rfl, rfl, enterS_exitS m a _⟩
 
 /-- The central invariant: whatever a well-nested program does — any nesting, any arguments,
 normal or exceptional exits — the world it leaves is equivalent to the world it found. -/
@@ -316,11 +320,11 @@ theorem exec_eqv (t : Nat) (p : Prog) : ∀ w, (exec t p w).world.Eqv w := by
     | error e => exact World.Eqv.refl w
     | ok r =>
       obtain ⟨w1, sv, st⟩ := r
-      obtain ⟨_, s1, hw1, hs⟩ := enter_spec he
+      obtain ⟨_, w0, s1, ht, hp, hw1, hs⟩ := enter_spec he
       simp only
       unfold exit
-      have hr : (exec t p w1).world.Eqv (w.put st t s1) := hw1 ▸ ih w1
-      refine put_back hr ?_
+      have hr : (exec t p w1).world.Eqv (w0.put st t s1) := hw1 ▸ ih w1
+      refine (put_back hr ?_).trans (eqv_of_fields ht hp)
       have h1 : ((exec t p w1).world.sel st t).Eqv s1 := by
         have := sel_eqv hr st t
         rwa [sel_put] at this
@@ -469,7 +473,7 @@ theorem enter_sim {m : Mgr} {a : Arg} {t : Nat} {w ws : World} (hl : isLocal m a
     have hsel : w.sel m.storage t = ws.sel m.storage t := by rw [sel_local _ _ hst, sel_local _ _ hst, h.1]
     refine ⟨_, _, _, _, rfl, by rw [hsel], hst, ?_⟩
     exact ⟨by rw [put_tls_self _ _ hst, put_tls_self _ _ hst, hsel],
-           by rw [put_proc_local _ _ hst, put_proc_local _ _ hst, h.2]⟩
+           by rw [put_proc_local _ _ hst, put_proc_local _ _ hst]; exact h.2⟩
 
 theorem exit_sim {m : Mgr} {sv : Saved} {st : Storage} {t : Nat} {w ws : World} (hst : st ≠ .processWide)
     (h : Sim t w ws) : Sim t (exit m sv st t w) (exit m sv st t ws) := by
@@ -528,10 +532,11 @@ theorem enter_frames {m : Mgr} {a : Arg} {t t' : Nat} (ht : t' ≠ t) (hl : isLo
   | ok r =>
     obtain ⟨w1, sv, st⟩ := r
     dsimp only
-    obtain ⟨hst, s1, hw1, _⟩ := enter_spec he
+    obtain ⟨hst, w0, s1, h1, h2, hw1, _⟩ := enter_spec he
     have hne : st ≠ .processWide := hst ▸ isLocal_ne hl
     subst hw1
-    exact ⟨put_tls_other _ _ _ _ (Ne.symm ht) _, put_proc_local _ _ hne _ _⟩
+    exact ⟨(put_tls_other _ _ _ _ (Ne.symm ht) _).trans (congrFun h1 t),
+           (put_proc_local _ _ hne _ _).trans h2⟩
 
 theorem exit_frames {m : Mgr} {sv : Saved} {st : Storage} {t t' : Nat} (ht : t' ≠ t) (hst : st ≠ .processWide) :
     Frames t (exit m sv st t') := by
